@@ -81,6 +81,7 @@ type DB struct {
 	compPerErrC      chan error
 	compErrSetC      chan error
 	compWriteLocking bool
+	compReadOnly     uint32 // Set once SetReadOnly succeeded, read by table compaction.
 	compStats        cStats
 	memdbMaxLevel    int // For testing.
 
